@@ -120,4 +120,13 @@ theorem C05_witness_loopvar :
     check [] [] witLoop = true ∧ (⟨1, 0, [1]⟩ : Pos) ∈ positionsP .operand witLoop ∧
       check [] [] (inject .operand ⟨1, 0, [1]⟩ witLoop) = false ∧ inKLoopVarMul .operand witLoop ⟨1, 0, [1]⟩ = true := by decide
 
+/-! ### keyword arguments: positions inside `end := …` and `q := …` are covered by the theorem -/
+
+/-- v0 = 3; v1 = "s0"; f0(p: Nat, q: Str) = q + q; print!(v0, end := v1 + "s1"); v2 = f0(v0 + 1, q := v1 + "s1") -/
+def kwP : List Stmt := [.defv (.lit .nat 3), .defv (.lit .str 0), .fun2 .nat .str (.bin .add (.var 3) (.var 3)),
+  .printEnd (.var 0) (.bin .add (.var 1) (.lit .str 1)), .defvK 0 (.bin .add (.var 0) (.lit .nat 1)) (.bin .add (.var 1) (.lit .str 1))]
+
+example : check [] [] kwP = true ∧ (⟨3, 1, [0]⟩ : Pos) ∈ positionsP .rename kwP ∧ (⟨4, 1, []⟩ : Pos) ∈ positionsP .operand kwP ∧
+    check [] [] (inject .rename ⟨3, 1, [0]⟩ kwP) = false ∧ check [] [] (inject .operand ⟨4, 1, []⟩ kwP) = false := by decide
+
 end ErgVerif.C05
